@@ -9,7 +9,7 @@ Line-protocol driver for the C01 model (model files only).  One program per line
   T  ::= T<k> atom…          atom ::= i | s | b | n | o | c<id>
   E  ::= I n | S k c… | B 0|1 | N | V x | A E f | M E m k E… | F f k E… | C c k E… | Q x c | Z x neg
        | ! E | & E E | "|" E E | = E E | + E E | - E E | < E E | P k E
-  ST ::= pass | D x E | X x E | W E f E | E E | R E | IF E ST ST | WH E ST | SQ ST ST | BR | CT
+  ST ::= pass | D x E | X x E | Y x E | W E f E | E E | R E | IF E ST ST | WH E ST | SQ ST ST | BR | CT
   FN ::= fn <k> T… <k> T… T ST
 
 Output, one line:  `wf=<0|1> tc=<ok|type k|unsupported k|hole k|stuck k|fuel> tm=<k>:<atoms>;… || <call>;;<call>…`
@@ -78,6 +78,7 @@ partial def pStmt : Parser Stmt
   | "pass" :: r => some (.pass, r)
   | "D" :: r => do let (x, r) ← pNat r; let (e, r) ← pExpr r; pure (.decl x e, r)
   | "X" :: r => do let (x, r) ← pNat r; let (e, r) ← pExpr r; pure (.assign x e, r)
+  | "Y" :: r => do let (x, r) ← pNat r; let (e, r) ← pExpr r; pure (.infer x e, r)
   | "W" :: r => do
     let (o, r) ← pExpr r; let (f, r) ← pNat r; let (e, r) ← pExpr r; pure (.setAttr o f e, r)
   | "E" :: r => do let (e, r) ← pExpr r; pure (.expr e, r)
